@@ -75,7 +75,7 @@ def parse_registry():
     return jobs
 
 
-BITS = {"B_SINGLE": 1, "B_CHUNK": 2, "B_BUF": 4, "B_SKIP": 8, "B_LEN": 16, "B_NEXT": 32, "0": 0}
+BITS = {"B_SINGLE": 1, "B_CHUNK": 2, "B_BUF": 4, "B_SKIP": 8, "B_LEN": 16, "B_NEXT": 32, "B_FE1": 64, "B_FE2": 128, "0": 0}
 
 
 def tbmc_params(job):
